@@ -212,7 +212,7 @@ def build(o):
     if k == 'G':
         return common.make_glob(o[3])
     if k == 'S':
-        return IPSet([IPNetwork((v, p), version=ver) for ver, v, p in o[1]])
+        return common.make_set(o[1])
     if k == 'E':
         return common.make_eui(o[2], o[1], getattr(netaddr, DIALECTS[o[3]]))
     if k == 'O':
